@@ -7,7 +7,7 @@
    PutExistingCurrentVersion + IsInConflict + resolveHLVConflict (version-vector protocol, "v4"),
    db/sg_replicate_conflict_resolver.go DefaultConflictResolver, db/hybrid_logical_vector.go DefaultLWWConflictResolutionType.
 
-   One replication with direction set Dirs (push: A -> B, pull: B -> A).  Conflicts are only RESOLVED on the active peer
+   One replication with direction set dirs (push: A -> B, pull: B -> A).  Conflicts are only RESOLVED on the active peer
    (pull); the passive peer rejects a conflicting pushed revision with 409 (sendRevNoConflicts, no resolver).
 
    v3 state of a document on a peer: the set `tree` of revision ids it knows, `cur` the winning leaf, `body`, `del`.
@@ -23,8 +23,8 @@
    Impl* conjuncts define the implementation variables, Ghost* the history variables; Trace_Replication reuses them. *)
 EXTENDS Integers, Sequences, FiniteSets, TLC
 
-CONSTANTS Proto,       \* "v3" | "v4"
-          Dirs,        \* subset of {"push", "pull"}, non-empty
+CONSTANTS Protos,      \* protocols explored: subset of {"v3", "v4"}
+          DirSets,     \* direction sets explored: subset of {{"push"}, {"pull"}, {"push", "pull"}}
           Docs,        \* document ids (small naturals)
           MaxEdits,    \* bound on environment writes
           MaxStops,    \* bound on Stop
@@ -41,7 +41,7 @@ Peers == {"A", "B"}
 Src(dir) == IF dir = "push" THEN "A" ELSE "B"
 Tgt(dir) == IF dir = "push" THEN "B" ELSE "A"
 Other(p) == IF p = "A" THEN "B" ELSE "A"
-Bidirectional == Dirs = {"push", "pull"}
+AllDirs == {"push", "pull"}
 Max(a, b) == IF a >= b THEN a ELSE b
 
 NoRev == [g |-> 0, x |-> 0]
@@ -49,15 +49,17 @@ ZeroPV == [A |-> 0, B |-> 0]
 Absent == [tree |-> {}, cur |-> NoRev, src |-> "", ver |-> 0, pv |-> ZeroPV, body |-> 0, del |-> FALSE]
 
 VARIABLES
+  proto,      \* configuration of this behaviour: "v3" (rev-tree protocol) | "v4" (version vectors)
+  dirs,       \* configuration of this behaviour: the directions of the replication (subset of AllDirs)
   doc,        \* impl: [Peers -> [Docs -> document state]]
   revs,       \* impl (v3): [Docs -> [revision id -> [par, body, del]]] - content addressed revision table
   pool,       \* configuration (v3): [Docs -> set of revision ids that may be generated]
   seq,        \* impl: [Peers -> Nat] last sequence allocated on the peer
   dseq,       \* impl: [Peers -> [Docs -> Nat]] sequence of the document's last write on the peer (0 = never)
   running,    \* impl: the replication is running
-  cursor,     \* impl: [Dirs -> Nat] changes feed position of the direction's source
-  ckpt,       \* impl: [Dirs -> Nat] persisted checkpoint
-  msgs,       \* impl: [Dirs -> set of in-flight messages [st, d, seq, rv]]
+  cursor,     \* impl: [AllDirs -> Nat] changes feed position of the direction's source
+  ckpt,       \* impl: [AllDirs -> Nat] persisted checkpoint
+  msgs,       \* impl: [AllDirs -> set of in-flight messages [st, d, seq, rv]]
   out,        \* impl: outcome of the last replication step [a, d, res]
   twrote,     \* ghost: [Peers -> [Docs -> BOOLEAN]] the environment wrote the document on that peer
   edits, stops, reruns,  \* ghost counters
@@ -69,7 +71,7 @@ VARIABLES
   hist
 
 impl  == <<doc, revs, seq, dseq, running, cursor, ckpt, msgs, out>>
-ghost == <<pool, twrote, edits, stops, reruns, rerun, snap, sync, swapped, devd>>
+ghost == <<proto, dirs, pool, twrote, edits, stops, reruns, rerun, snap, sync, swapped, devd>>
 vars  == <<impl, ghost, hist>>
 view  == <<impl, ghost>>
 
@@ -145,10 +147,10 @@ HLVPart(s) == [src |-> s.src, ver |-> s.ver, pv |-> s.pv]
 WithHLV(s, h) == [s EXCEPT !.src = h.src, !.ver = h.ver, !.pv = h.pv]
 
 -----------------------------------------------------------------------------
-Exists(s) == IF Proto = "v3" THEN s.cur # NoRev ELSE s.src # ""
-Id(s) == IF Proto = "v3" THEN <<s.cur.g, s.cur.x>> ELSE <<s.src, s.ver>>
+Exists(s) == IF proto = "v3" THEN s.cur # NoRev ELSE s.src # ""
+Id(s) == IF proto = "v3" THEN <<s.cur.g, s.cur.x>> ELSE <<s.src, s.ver>>
 (* what a change entry / rev message carries: the revision as it is on the source when it is listed *)
-Carried(s) == IF Proto = "v3" THEN [Absent EXCEPT !.cur = s.cur, !.body = s.body, !.del = s.del]
+Carried(s) == IF proto = "v3" THEN [Absent EXCEPT !.cur = s.cur, !.body = s.body, !.del = s.del]
               ELSE [s EXCEPT !.tree = {}, !.cur = NoRev]
 
 (* ---- views and named deviations, over a document table D and a revision table R (used primed in GhostSync) ---- *)
@@ -160,7 +162,7 @@ SameViewIn(D, d) == LET a == D["A"][d]
    each side then reports the other's version as already known *)
 CvSwapIn(D, d) == LET a == D["A"][d]
                       b == D["B"][d]
-                  IN /\ Proto = "v4" /\ a.del /\ b.del /\ Id(a) # Id(b)
+                  IN /\ proto = "v4" /\ a.del /\ b.del /\ Id(a) # Id(b)
                      /\ Dominates(a, b.src, b.ver) /\ Dominates(b, a.src, a.ver)
 (* named deviation (v3, genuine, reproduced - NOTES.md): UNSENT TOMBSTONE.  The changes feed lists a document under its
    winning revision.  A peer that holds the tombstone t of (a descendant of) the other peer's CURRENT revision as a leaf
@@ -171,25 +173,28 @@ CvSwapIn(D, d) == LET a == D["A"][d]
 UnsentTombAt(D, R, p, d) ==
   LET a == D[p][d]
       b == D[Other(p)][d]
-  IN /\ Proto = "v3" /\ Exists(a) /\ Exists(b)
+  IN /\ proto = "v3" /\ Exists(a) /\ Exists(b)
      /\ \E t \in LeavesIn(R, d, a.tree) : /\ t # a.cur /\ InfoIn(R, d, t).del /\ t \notin b.tree
                                           /\ b.cur \in AncIn(R, d, t)
 UnsentTombIn(D, R, d) == \E p \in Peers : UnsentTombAt(D, R, p, d)
 DeviationIn(D, R, d) == CvSwapIn(D, d) \/ UnsentTombIn(D, R, d)
 
 
+Bidirectional == dirs = AllDirs
+
 Init ==
+  /\ proto \in Protos /\ dirs \in DirSets
   /\ doc = [p \in Peers |-> [d \in Docs |-> Absent]]
   /\ revs = [d \in Docs |-> <<>>] /\ seq = [p \in Peers |-> 0] /\ dseq = [p \in Peers |-> [d \in Docs |-> 0]]
-  /\ running = FALSE /\ cursor = [x \in Dirs |-> 0] /\ ckpt = [x \in Dirs |-> 0] /\ msgs = [x \in Dirs |-> {}]
+  /\ running = FALSE /\ cursor = [x \in AllDirs |-> 0] /\ ckpt = [x \in AllDirs |-> 0] /\ msgs = [x \in AllDirs |-> {}]
   /\ out = [a |-> "None", d |-> 0, res |-> "None"]
   /\ twrote = [p \in Peers |-> [d \in Docs |-> FALSE]] /\ edits = 0 /\ stops = 0 /\ reruns = 0
   /\ rerun = FALSE /\ snap = doc /\ sync = FALSE /\ swapped = {} /\ devd = {} /\ pool = InitPool
   /\ hist = <<>>
 
-NoMsgs == \A x \in Dirs : msgs[x] = {}
+NoMsgs == \A x \in dirs : msgs[x] = {}
 CaughtUp(x) == \A d \in Docs : cursor[x] >= dseq[Src(x)][d]
-Quiescent == running /\ NoMsgs /\ \A x \in Dirs : CaughtUp(x)
+Quiescent == running /\ NoMsgs /\ \A x \in dirs : CaughtUp(x)
 
 (* a write of document d on peer p: allocate the next sequence *)
 Bump(p, d) == /\ seq[p] < MaxSeq
@@ -231,12 +236,13 @@ ImplWriteV4(p, d, kind, body, v) ==
 
 ImplWrite(p, d, kind, body, v) ==
   /\ KindOK(doc[p][d], kind)
-  /\ IF Proto = "v3" THEN ImplWriteV3(p, d, kind, body) ELSE ImplWriteV4(p, d, kind, body, v)
+  /\ IF proto = "v3" THEN ImplWriteV3(p, d, kind, body) ELSE ImplWriteV4(p, d, kind, body, v)
   /\ Bump(p, d)
   /\ UNCHANGED <<running, cursor, ckpt, msgs>>
   /\ out' = [a |-> "Write", d |-> d, res |-> kind]
 
-GhostSync == /\ sync' = (running' /\ (\A x \in Dirs : msgs'[x] = {}) /\ \A x \in Dirs : \A d \in Docs : cursor'[x] >= dseq'[Src(x)][d])
+GhostSync == /\ UNCHANGED <<proto, dirs>>
+             /\ sync' = (running' /\ (\A x \in dirs : msgs'[x] = {}) /\ \A x \in dirs : \A d \in Docs : cursor'[x] >= dseq'[Src(x)][d])
              /\ devd' = devd \cup {d \in Docs : DeviationIn(doc', revs', d)}
 GhostWrite(p, d) ==
   /\ twrote' = [twrote EXCEPT ![p][d] = TRUE]
@@ -247,7 +253,7 @@ Step(a, p, d) == hist' = IF TrackHist THEN Append(hist, [a |-> a, p |-> p, d |->
 
 Write(p, d, kind) ==
   /\ edits < MaxEdits /\ ~rerun
-  /\ \E v \in (IF Proto = "v4" THEN VersFor(p, d) ELSE {0}) :
+  /\ \E v \in (IF proto = "v4" THEN VersFor(p, d) ELSE {0}) :
        ImplWrite(p, d, kind, IF kind = "delete" THEN 0 ELSE edits + 1, v)
   /\ GhostWrite(p, d) /\ GhostSync
   /\ Step(CASE kind = "delete" -> "Delete" [] kind = "resurrect" -> "Resurrect" [] OTHER -> "Edit", p, d)
@@ -255,16 +261,16 @@ Write(p, d, kind) ==
 -----------------------------------------------------------------------------
 (* ---- replication life cycle ---- *)
 ImplStart == /\ ~running /\ running' = TRUE
-             /\ cursor' = ckpt /\ msgs' = [x \in Dirs |-> {}]
+             /\ cursor' = ckpt /\ msgs' = [x \in AllDirs |-> {}]
              /\ UNCHANGED <<doc, revs, seq, dseq, ckpt>>
              /\ out' = [a |-> "Start", d |-> 0, res |-> "None"]
 ImplStop  == /\ running /\ running' = FALSE
-             /\ msgs' = [x \in Dirs |-> {}]              \* the connection is closed: in-flight messages are dropped
+             /\ msgs' = [x \in AllDirs |-> {}]              \* the connection is closed: in-flight messages are dropped
              /\ UNCHANGED <<doc, revs, seq, dseq, cursor, ckpt>>
              /\ out' = [a |-> "Stop", d |-> 0, res |-> "None"]
 (* a caught-up replication run again from scratch (fresh replication id: no checkpoint) *)
 ImplRerun == /\ Quiescent
-             /\ cursor' = [x \in Dirs |-> 0]
+             /\ cursor' = [x \in AllDirs |-> 0]
              /\ UNCHANGED <<doc, revs, seq, dseq, running, ckpt, msgs>>
              /\ out' = [a |-> "Rerun", d |-> 0, res |-> "None"]
 GhostLife(a) ==
@@ -296,7 +302,7 @@ ImplOffer(x) ==
 (* AnswerKnown: RevDiff (v3: the revision is in the target's tree) / CheckChangeVersion (v4: the target's vector dominates) *)
 Known(t, m) ==
   LET s == doc[t][m.d] IN
-  IF Proto = "v3" THEN m.rv.cur \in s.tree ELSE Exists(s) /\ Dominates(s, m.rv.src, m.rv.ver)
+  IF proto = "v3" THEN m.rv.cur \in s.tree ELSE Exists(s) /\ Dominates(s, m.rv.src, m.rv.ver)
 ImplAnswer(x, m) ==
   /\ running /\ m \in msgs[x] /\ m.st = "offered"
   /\ IF Known(Tgt(x), m)
@@ -381,7 +387,7 @@ ApplyV4(x, m) ==
 ImplApply(x, m) ==
   /\ running /\ m \in msgs[x] /\ m.st = "sent"
   /\ msgs' = [msgs EXCEPT ![x] = @ \ {m}]
-  /\ IF Proto = "v3" THEN ApplyV3(x, m) ELSE ApplyV4(x, m)
+  /\ IF proto = "v3" THEN ApplyV3(x, m) ELSE ApplyV4(x, m)
   /\ UNCHANGED <<running, cursor, ckpt>>
 
 (* Checkpoint: persist the safe position - everything listed up to it has been processed *)
@@ -395,16 +401,16 @@ ImplCheckpoint(x) ==
 
 GhostRepl ==
   /\ rerun' = (rerun /\ ~sync')
-  /\ swapped' = IF Proto = "v4" /\ out'.a = "Apply" /\ out'.res = "tombstones" THEN swapped \cup {out'.d} ELSE swapped
+  /\ swapped' = IF proto = "v4" /\ out'.a = "Apply" /\ out'.res = "tombstones" THEN swapped \cup {out'.d} ELSE swapped
   /\ UNCHANGED <<pool, twrote, edits, stops, reruns, snap>>
 
-Offer(x)      == ImplOffer(x) /\ GhostSync /\ GhostRepl /\ Step("Offer", x, 0)
-Answer(x, m)  == ImplAnswer(x, m) /\ GhostSync /\ GhostRepl /\ Step("Answer", x, m.d)
-Send(x, m)    == ImplSend(x, m) /\ GhostSync /\ GhostRepl /\ Step("Send", x, m.d)
-Apply(x, m)   == ImplApply(x, m) /\ GhostSync /\ GhostRepl /\ Step("Apply", x, m.d)
-Checkpoint(x) == ImplCheckpoint(x) /\ GhostSync /\ GhostRepl /\ Step("Checkpoint", x, 0)
+Offer(x)      == x \in dirs /\ ImplOffer(x) /\ GhostSync /\ GhostRepl /\ Step("Offer", x, 0)
+Answer(x, m)  == x \in dirs /\ ImplAnswer(x, m) /\ GhostSync /\ GhostRepl /\ Step("Answer", x, m.d)
+Send(x, m)    == x \in dirs /\ ImplSend(x, m) /\ GhostSync /\ GhostRepl /\ Step("Send", x, m.d)
+Apply(x, m)   == x \in dirs /\ ImplApply(x, m) /\ GhostSync /\ GhostRepl /\ Step("Apply", x, m.d)
+Checkpoint(x) == x \in dirs /\ ImplCheckpoint(x) /\ GhostSync /\ GhostRepl /\ Step("Checkpoint", x, 0)
 
-Repl == \E x \in Dirs : \/ Offer(x) \/ Checkpoint(x)
+Repl == \E x \in dirs : \/ Offer(x) \/ Checkpoint(x)
                         \/ \E m \in msgs[x] : Answer(x, m) \/ Send(x, m) \/ Apply(x, m)
 Env == \/ \E p \in Peers, d \in Docs, kind \in {"create", "update", "delete", "resurrect"} : Write(p, d, kind)
        \/ Start \/ Stop \/ Rerun
@@ -412,7 +418,7 @@ Env == \/ \E p \in Peers, d \in Docs, kind \in {"create", "update", "delete", "r
 Next == (TrackHist => Len(hist) < MaxSteps) /\ (Env \/ Repl)
 Spec == Init /\ [][Next]_vars
 (* fairness: every replication step, and a stopped replication is started again *)
-Fair == /\ \A x \in Dirs : WF_vars(Offer(x)) /\ WF_vars(\E m \in msgs[x] : Answer(x, m) \/ Send(x, m) \/ Apply(x, m))
+Fair == /\ \A x \in AllDirs : WF_vars(Offer(x)) /\ WF_vars(\E m \in msgs[x] : Answer(x, m) \/ Send(x, m) \/ Apply(x, m))
         /\ WF_vars(Start)
 LiveSpec == Spec /\ Fair
 
@@ -425,26 +431,26 @@ Deviation(d) == DeviationIn(doc, revs, d)
 (* where convergence is promised: bidirectional - every document; one direction only - the documents the environment never
    wrote on the TARGET side (a target-side edit is invisible to the source: a conflicting push is rejected, a resolved pull
    that the local revision wins is not sent back) *)
-Promised(d) == Bidirectional \/ \A x \in Dirs : ~twrote[Tgt(x)][d]
+Promised(d) == Bidirectional \/ \A x \in dirs : ~twrote[Tgt(x)][d]
 Converged == sync => \A d \in Docs : Promised(d) => SameView(d)
 ConvergedModDev == sync => \A d \in Docs : Promised(d) => (SameView(d) \/ d \in devd)
 (* a resolved conflict leaves one live revision at most on each peer (and by Converged both adopt the same one) *)
 LiveLeaves(p, d) == {r \in LeavesIn(revs, d, doc[p][d].tree) : ~Info(d, r).del}
-SingleWinner == Proto = "v3" => \A p \in Peers, d \in Docs : Cardinality(LiveLeaves(p, d)) <= 1
+SingleWinner == proto = "v3" => \A p \in Peers, d \in Docs : Cardinality(LiveLeaves(p, d)) <= 1
 (* re-running a caught-up replication transfers no revisions: nothing is requested for a document on which the peers
    agree, and nothing changes *)
 IdempotentRerun ==
   rerun => /\ doc = snap
-           /\ \A x \in Dirs : \A m \in msgs[x] : m.st \in {"wanted", "sent"} => ~(Promised(m.d) /\ SameView(m.d))
+           /\ \A x \in dirs : \A m \in msgs[x] : m.st \in {"wanted", "sent"} => ~(Promised(m.d) /\ SameView(m.d))
 (* liveness: edits stop => eventually always converged (push-and-pull) *)
 AllSame == \A d \in Docs : SameView(d) \/ d \in devd
 EventuallyConverged == <>[](AllSame)
 
 (* auxiliary *)
 TypeOK == /\ \A p \in Peers, d \in Docs : doc[p][d].tree \subseteq IdsIn(revs, d)
-          /\ \A x \in Dirs : ckpt[x] <= cursor[x] \/ ~running \/ rerun
-CurIsWinner == Proto = "v3" => \A p \in Peers, d \in Docs : doc[p][d].cur = WinnerIn(revs, d, doc[p][d].tree)
+          /\ \A x \in dirs : ckpt[x] <= cursor[x] \/ ~running \/ rerun
+CurIsWinner == proto = "v3" => \A p \in Peers, d \in Docs : doc[p][d].cur = WinnerIn(revs, d, doc[p][d].tree)
 NotStarved == out.res # "starved"
 SeqBound == \A p \in Peers : seq[p] < MaxSeq
-CkptSafe == rerun \/ \A x \in Dirs : \A m \in msgs[x] : ckpt[x] < m.seq
+CkptSafe == rerun \/ \A x \in dirs : \A m \in msgs[x] : ckpt[x] < m.seq
 =============================================================================
